@@ -30,3 +30,19 @@ func init() {
 		real: realCommon, stub: stubCommon,
 	}
 }
+
+func init() {
+	props["C05"] = &propCfg{
+		id: "C05", level: "exploration", quickN: 12000, thoroughN: 1200000,
+		rule: "One episode = one seeded hostile program (1-3 idioms out of ~37 idiom families, optionally wrapped in closures/loops, with modules) run through Compiled.RunContext or Script.RunContext " +
+			"under a seeded context kind, injected faults (panic from the per-instruction hook, host-function error/nil/panic/block, allocation budget, small string/bytes maxima, caller stall) and schedule, followed by Get/GetAll/IsDefined/Set/RunContext after-care on the same object. " +
+			"A case is (idiom set | context kind | class of the hostile run's outcome with numbers removed); non-trivial when that outcome is an error or a cancellation (the program really misbehaved). Worker processes isolate fatal errors.",
+		assume: []string{
+			"injected panic values are the kinds tengo code and the Go runtime can raise on the VM goroutine (runtime.Error, error, string)",
+			"unbounded single allocations are outside the claim and are not generated; worker deaths by memory exhaustion are counted as inconclusive",
+			"Clone and plain Run are executed but are not part of the claim",
+			"a clean batch is evidence about the explored programs, faults and schedules, not a proof",
+		},
+		real: realCommon, stub: stubCommon,
+	}
+}
